@@ -3,13 +3,20 @@ import DymVerif.Model.Spons
 /-
   Driver/C16 — line protocol over M-Spons.
 
-    reset <minAlloc> <minVP>
+    reset <minAlloc> <minVP>                        (genesis state: no gauges, no rollapps)
     hdr gauge <gid> asset <0|1 perpetual>          hdr bgauge <gid>   (perpetual asset gauge of the base state)
-    hdr rollapp r<i> <rollappGaugeId>
+    hdr rollapp r<i> <rollappGaugeId>              (rollapp of the base state: the RollappCreated hook ran there)
     hdr egauge <gid> r<i> <0|1 perpetual> <coins> <numEpochs>
+        every `hdr` line is turned into the model op `addGauge` / `addRollapp`; the id the MODEL hands
+        out (`lastGauge + 1`) must be the real id on the line (`bad-id` otherwise); `hdr` lines may
+        appear anywhere in a trace (gauges created mid-trace)
+    addrollapp r<i>                                 (real MsgCreateRollapp mid-trace → hook)
+    setparams <minAlloc> <minVP>                    (real MsgUpdateParams by the authority)
     vote a<i> <gid>:<w>,…|-          revoke a<i>          claim a<i> <gid>
     delegate|undelegate|redelegate|cancel a<i> … :: F | (H v<j> <hookVP|x>)* (S a<i> v<j> <vp|x>)*
-    slash v<j> <factor> :: (S a<i> v<j> <vp|x>)*
+    slash v<j> <factor> [<blocks back>] :: (HA a<i> v<j> <hookVP|x>)* (S a<i> v<j> <vp|x>)*
+        (HA: hooks x/staking fires while slashing redelegations — one `.staking a [hook] []` op each,
+         then `.slash`)
     begin <seconds> :: [day] [hour] [week]          end          fund <gid> <amt>
 
   Everything after `::` are staking-side facts read from the real x/staking by the harness.
@@ -38,11 +45,14 @@ structure Facts where
   fail : Bool := false
   hooks : List (Nat × Option Int) := []
   fin : List ((Nat × Nat) × Option Int) := []
+  /-- hooks fired for other delegators (redelegation slashing): (delegator, validator, hook power) -/
+  hooksA : List (Nat × Nat × Option Int) := []
   ids : List String := []
 
 def parseFacts : List String → Facts → Facts
   | "F" :: rest, f => parseFacts rest { f with fail := true }
   | "H" :: v :: p :: rest, f => parseFacts rest { f with hooks := f.hooks ++ [(idx! v, optInt! p)] }
+  | "HA" :: a :: v :: p :: rest, f => parseFacts rest { f with hooksA := f.hooksA ++ [(idx! a, idx! v, optInt! p)] }
   | "S" :: a :: v :: p :: rest, f => parseFacts rest { f with fin := f.fin ++ [((idx! a, idx! v), optInt! p)] }
   | x :: rest, f => parseFacts rest { f with ids := f.ids ++ [x] }
   | [], f => f
@@ -93,27 +103,32 @@ def showErr : Err → String
   | .cannotClaim => "cannot-claim" | .notEndorsement => "not-endorsement"
   | .noEndorsement => "no-endorsement" | .noPower => "no-power" | .payFailed => "pay-failed"
   | .panic => "panic" | .hookErr => "hook-err" | .finishedGauge => "finished-gauge" | .noFunds => "no-funds"
+  | .badParams => "bad-params" | .rollappExists => "rollapp-exists" | .noRollapp => "no-rollapp"
+  | .badGauge => "bad-gauge"
 
 def out (r : State × Option Err × Int) (paid : Bool := false) : State × String :=
   let cls := match r.2.1 with | none => "ok" | some e => showErr e
   let p := if paid && r.2.1.isNone then s!" paid={r.2.2}" else ""
   (r.1, cls ++ p ++ " " ++ showState r.1)
 
+/-- a creation op: the id the model handed out must be the id on the line -/
+def created (gid : Nat) (r : State × Option Err × Int) : State × String :=
+  if r.2.1.isNone && r.1.lastGauge != gid then (r.1, s!"bad-id model={r.1.lastGauge} line={gid}") else out r
+
 def step (s : State) (line : List String) : State × String :=
   let (f, facts) := splitFacts line
   match f with
   | ["reset", ma, mv] => (State.init (int! ma) (int! mv), "ok")
   | ["hdr", "gauge", g, "asset", p] =>
-      ({ s with gauges := s.gauges ++ [{ id := nat! g, kind := .asset, perpetual := p = "1" }] }, "ok")
+      created (nat! g) (Spons.step s (.addGauge { id := 0, kind := .asset, perpetual := p = "1" }))
   | ["hdr", "bgauge", g] =>
-      ({ s with gauges := s.gauges ++ [{ id := nat! g, kind := .asset, perpetual := true }] }, "ok")
-  | ["hdr", "rollapp", r, g] =>
-      ({ s with gauges := s.gauges ++ [{ id := nat! g, kind := .rollapp (idx! r), perpetual := true }],
-                endorsements := s.endorsements ++ [⟨idx! r, nat! g, 0, 0⟩] }, "ok")
+      created (nat! g) (Spons.step s (.addGauge { id := 0, kind := .asset, perpetual := true }))
+  | ["hdr", "rollapp", r, g] => created (nat! g) (Spons.step s (.addRollapp (idx! r)))
   | ["hdr", "egauge", g, r, p, c, n] =>
-      ({ s with gauges := s.gauges ++ [{ id := nat! g, kind := .endorsement (idx! r), perpetual := p = "1",
-                                          coins := int! c, numEpochs := nat! n }],
-                incBal := s.incBal + int! c }, "ok")
+      created (nat! g) (Spons.step s (.addGauge { id := 0, kind := .endorsement (idx! r), perpetual := p = "1",
+                                                   coins := int! c, numEpochs := nat! n }))
+  | ["addrollapp", r] => out (Spons.step s (.addRollapp (idx! r)))
+  | ["setparams", ma, mv] => out (Spons.step s (.setParams (int! ma) (int! mv)))
   | ["vote", a, ws] => out (Spons.step s (.vote (idx! a) (weights! ws)))
   | ["revoke", a] => out (Spons.step s (.revoke (idx! a)))
   | ["claim", a, g] => out (Spons.step s (.claim (idx! a) (nat! g))) true
@@ -122,7 +137,10 @@ def step (s : State) (line : List String) : State × String :=
       else out (Spons.step s (.staking (idx! a) facts.hooks facts.fin))
   | "slash" :: _ =>
       if facts.fail then (s, "stk-fail " ++ showState s)
-      else out (Spons.step s (.slash facts.fin))
+      else
+        -- redelegation slashing: Unbond fires the delegator's hook on the destination validator
+        let s1 := facts.hooksA.foldl (fun st h => (Spons.step st (.staking h.1 [(h.2.1, h.2.2)] [])).1) s
+        out (Spons.step s1 (.slash facts.fin))
   | ["begin", _] =>
       let s1 := facts.ids.foldl (fun st id => (Spons.step st (.epochEnd (id = "week"))).1) s
       (s1, "ok " ++ showState s1)
